@@ -1289,5 +1289,71 @@ func checkResponseObjectsPrivate(c *Ctx, rule string) {
 			}
 		})
 	}
-	c.check(n >= 1, rule, "responses completed after a helper built them", "?", fmt.Sprintf("%d sites", n), "no such site found (statvfs expected)")
+	// objects a *handler* returns: the implementation is the user's, so nothing can be assumed about who else holds the
+	// pointer (a constant, a cache).  The library may read through it and must build its own response.
+	for _, fn := range p.LibFuncs() {
+		if outermost(fn).Package() != p.Sftp || !isServerSide(fn) {
+			continue
+		}
+		eachInstr(fn, func(in ssa.Instruction) {
+			call, ok := in.(*ssa.Call)
+			if !ok || !call.Call.IsInvoke() || !call.Call.Method.Exported() {
+				return
+			}
+			recvT := namedOf(call.Call.Value.Type())
+			if recvT == nil || !recvT.Obj().Exported() || recvT.Obj().Pkg() == nil || recvT.Obj().Pkg().Path() != pkgSftp {
+				return
+			}
+			isResp := func(t types.Type) bool {
+				pt, ok := t.(*types.Pointer)
+				if !ok {
+					return false
+				}
+				nt := namedOf(pt.Elem())
+				if nt == nil || nt.Obj().Pkg() == nil || nt.Obj().Pkg().Path() != pkgSftp {
+					return false
+				}
+				if _, isStruct := nt.Underlying().(*types.Struct); !isStruct {
+					return false
+				}
+				return p.SSA.MethodSets.MethodSet(pt).Lookup(p.Sftp.Pkg, "id") != nil
+			}
+			var vals []ssa.Value
+			if tup, ok := call.Type().(*types.Tuple); ok {
+				for _, r := range *call.Referrers() {
+					if ex, ok := r.(*ssa.Extract); ok && isResp(tup.At(ex.Index).Type()) {
+						vals = append(vals, ex)
+					}
+				}
+			} else if isResp(call.Type()) {
+				vals = append(vals, call)
+			}
+			for _, v := range vals {
+				n++
+				bad := ""
+				for _, r := range *v.Referrers() {
+					switch x := r.(type) {
+					case *ssa.DebugRef:
+					case *ssa.UnOp:
+						if x.Op != token.MUL {
+							bad = p.Pos(x.Pos())
+						}
+					case *ssa.BinOp:
+						if !isNilConst(x.X) && !isNilConst(x.Y) {
+							bad = p.Pos(x.Pos())
+						}
+					default:
+						bad = p.Pos(r.Pos())
+						if bad == "?" {
+							bad = p.Pos(call.Pos())
+						}
+					}
+				}
+				key := "response object returned by handler method " + recvT.Obj().Name() + "." + call.Call.Method.Name() + " is only read (in " + fnName(fn) + ")"
+				c.check(bad == "", rule, key, p.Pos(call.Pos()), "the library copies it and completes its own response",
+					"the object the handler returned is written to or sent as the response itself (at "+bad+"): the request id is stored into the handler's object and the controller marshals it later, so a handler that returns the same object twice (a constant, a cache) gets both requests answered with the second id")
+			}
+		})
+	}
+	c.check(n >= 2, rule, "responses completed after a helper or handler built them", "?", fmt.Sprintf("%d sites", n), "fewer sites than confirmed by hand (the two statvfs paths expected)")
 }
